@@ -123,6 +123,30 @@ pub fn run(ctx: &mut Ctx) {
             p.cones.push(ConeT::NonnegativeConeT(2));
             ctx.bump("big_M_pair_instances");
         }
+        // second-order cones used as plain bounds: (a.x + b, 0, ..., 0) in SOC, i.e. the tail rows of A and b are
+        // zero, so slack, dual and every step direction lie ON the cone's axis (the quadratic of the step-length
+        // computation degenerates: zero discriminant up to rounding)
+        if rng.bool(0.12) {
+            let mut a = Dense::from_csc(&p.A);
+            let mut any = false;
+            for (c, r) in p.cones.clone().iter().zip(cone_ranges(&p.cones)) {
+                if let ConeT::SecondOrderConeT(d) = c {
+                    if *d >= 2 && rng.bool(0.7) {
+                        for i in r.start + 1..r.end {
+                            for j in 0..p.n() {
+                                a.set(i, j, 0.0);
+                            }
+                            p.b[i] = 0.0;
+                        }
+                        any = true;
+                    }
+                }
+            }
+            if any {
+                p.A = a.to_csc();
+                ctx.bump("instances_with_axis_only_second_order_cones");
+            }
+        }
         let mut st = gen::random_settings(&mut rng, true);
         st.max_step_fraction = *rng.choose(&[0.5, 0.9, 0.99, 0.999]);
         st.linesearch_backtrack_step = *rng.choose(&[0.5, 0.8, 0.95]);
